@@ -1,11 +1,14 @@
 /-
 C04 — PROPERTY THEOREMS.  "Signal events reach every subscriber; the old disposition is restored."
 
-Every theorem quantifies over EVERY history of the model from `init` (`exec init ops = some s`): any number of
-signals, loops and signal events, any interleaving of newSignalEvent / initialize (on a disabled event) / enable /
-disable / destroy, user `sigaction` calls (while tbox's handler is not installed), signal deliveries `raise g`
-(one at a time, not concurrent with a subscription change) and single loop passes `pass l`.  No bound on any of these.
-Helper lemmas: Basics / Core / Inv / Deliver.
+Every theorem quantifies over EVERY history of the model of the repaired code (`exec repaired init ops = some s`):
+any number of signals (including the two on which `sigaction` fails), loops and signal events, any callback scripts
+(enable/disable/destroy of events of the same loop, not of the running event itself), any interleaving of
+newSignalEvent / initialize (also of an enabled event) / enable / disable / destroy, user `sigaction` calls,
+signal deliveries `raise g` (one at a time, not concurrent with a subscription change) and single loop passes
+`pass l ord` with any oracle `ord` for the order in which the subscriber snapshot is walked.  No bound on any of these.
+The three `_counterexample` theorems show what the code AS FOUND does on three concrete histories
+(patches/C04-01…03 repair them).  Helper lemmas: Basics / Core / Inv / Deliver.
 -/
 import TboxModel.C04.Deliver
 namespace Tbox.C04
@@ -16,16 +19,17 @@ def Subscribed (s : State) (e g : Nat) : Prop := (s.evs e).enabled = true ∧ g 
 instance (s : State) (e g : Nat) : Decidable (Subscribed s e g) := by unfold Subscribed; infer_instance
 
 /-- reachable states satisfy the invariant (re-exported for the audit) -/
-theorem C04_reachable_inv (ops : List Op) (s : State) (he : exec init ops = some s) : Inv s :=
+theorem C04_reachable_inv (ops : List Op) (s : State) (he : exec repaired init ops = some s) : Inv s :=
   exec_inv init ops init_inv s he
 
 /-- **bookkeeping never goes stale**: the process-wide ctx map, the per-loop subscriber maps, the pipes and the
-event objects agree in every reachable state. -/
-theorem C04_ctx_matches (ops : List Op) (s : State) (he : exec init ops = some s) :
+event objects agree in every reachable state.  In particular an event that is not enabled (never enabled, disabled,
+destroyed, re-initialised, or whose `enable()` failed half-way) is in no subscriber set. -/
+theorem C04_ctx_matches (ops : List Op) (s : State) (he : exec repaired init ops = some s) :
     (∀ l g e, e ∈ subsOf s l g ↔ (Subscribed s e g ∧ (s.evs e).loop = l)) ∧
     (∀ g l, l ∈ fdsOf s g ↔ ∃ e, Subscribed s e g ∧ (s.evs e).loop = l) ∧
-    (∀ g, (s.ctxs g).isSome = true ↔ ∃ e, Subscribed s e g) ∧
-    (∀ l, s.hasPipe l = true ↔ ∃ e g, Subscribed s e g ∧ (s.evs e).loop = l) := by
+    (∀ l, s.hasPipe l = true ↔ ∃ e g, Subscribed s e g ∧ (s.evs e).loop = l) ∧
+    (∀ e, (s.evs e).alive = false → (s.evs e).enabled = false) := by
   have h := C04_reachable_inv ops s he
   have hmem : ∀ l g e, e ∈ subsOf s l g ↔ (Subscribed s e g ∧ (s.evs e).loop = l) := by
     intro l g e; rw [h.mem]; unfold Subscribed; exact ⟨fun ⟨a, b, c⟩ => ⟨⟨a, b⟩, c⟩, fun ⟨⟨a, b⟩, c⟩ => ⟨a, b, c⟩⟩
@@ -33,33 +37,37 @@ theorem C04_ctx_matches (ops : List Op) (s : State) (he : exec init ops = some s
     intro g l
     rw [h.core.fdsIff, ne_nil_iff_exists_mem]
     exact ⟨fun ⟨e, hm⟩ => ⟨e, (hmem l g e).1 hm⟩, fun ⟨e, hm⟩ => ⟨e, (hmem l g e).2 hm⟩⟩
-  refine ⟨hmem, hfds, ?_, ?_⟩
-  · intro g
-    rw [h.core.ctxSome, ne_nil_iff_exists_mem]
-    constructor
-    · rintro ⟨l, hl⟩; obtain ⟨e, he', _⟩ := (hfds g l).1 hl; exact ⟨e, he'⟩
-    · rintro ⟨e, he'⟩; exact ⟨_, (hfds g _).2 ⟨e, he', rfl⟩⟩
-  · intro l
-    rw [h.core.pipeIff, h.core.subs_ne_nil_iff]
-    constructor
-    · rintro ⟨g, hg⟩
-      obtain ⟨e, hm⟩ := ne_nil_iff_exists_mem.1 hg
-      exact ⟨e, g, (hmem l g e).1 hm⟩
-    · rintro ⟨e, g, hm⟩
-      exact ⟨g, ne_nil_iff_exists_mem.2 ⟨e, (hmem l g e).2 hm⟩⟩
+  refine ⟨hmem, hfds, ?_, h.dead⟩
+  intro l
+  rw [h.core.pipeIff, h.core.subs_ne_nil_iff]
+  constructor
+  · rintro ⟨g, hg⟩
+    obtain ⟨e, hm⟩ := ne_nil_iff_exists_mem.1 hg
+    exact ⟨e, g, (hmem l g e).1 hm⟩
+  · rintro ⟨e, g, hm⟩
+    exact ⟨g, ne_nil_iff_exists_mem.2 ⟨e, (hmem l g e).2 hm⟩⟩
 
-/-- tbox's handler is installed for g exactly while some enabled event is subscribed to g. -/
-theorem C04_installed_while_subscribed (ops : List Op) (s : State) (he : exec init ops = some s) (g : Nat) :
-    (s.os g).kind = .tbox ↔ ∃ e, Subscribed s e g := by
-  rw [(C04_reachable_inv ops s he).core.osTbox]
-  exact (C04_ctx_matches ops s he).2.2.1 g
+/-- tbox's handler is installed for g exactly while some enabled event is subscribed to g (never for a signal on
+which `sigaction` fails). -/
+theorem C04_installed_while_subscribed (ops : List Op) (s : State) (he : exec repaired init ops = some s) (g : Nat) :
+    ((s.os g).kind = .tbox ↔ ∃ e, Subscribed s e g) ∧ (sigValid g = false → ∀ e, ¬ Subscribed s e g) := by
+  have h := C04_reachable_inv ops s he
+  have hfds := (C04_ctx_matches ops s he).2.1 g
+  have hiff : (s.os g).kind = .tbox ↔ ∃ e, Subscribed s e g := by
+    rw [h.core.osTbox, ne_nil_iff_exists_mem]
+    constructor
+    · rintro ⟨l, hl⟩; obtain ⟨e, he', _⟩ := (hfds l).1 hl; exact ⟨e, he'⟩
+    · rintro ⟨e, he'⟩; exact ⟨_, (hfds _).2 ⟨e, he', rfl⟩⟩
+  refine ⟨hiff, fun hv e hs => ?_⟩
+  have := (hfds _).2 ⟨e, hs, rfl⟩
+  rw [h.core.invalid g hv] at this; cases this
 
 /-- **old disposition restored**: take any reachable state s0 in which nobody is subscribed to g, continue with
-any history (subscriptions by several events on several loops, deliveries, passes, sigaction on OTHER signals) to
-any state s1 in which again nobody is subscribed to g: the kernel disposition of g — handler, SA_SIGINFO, flags,
-mask — is exactly what it was in s0. -/
+any history (subscriptions by several events on several loops, re-initialisations, failing enables, deliveries,
+passes with callbacks that change subscriptions, sigaction on OTHER signals) to any state s1 in which again nobody
+is subscribed to g: the kernel disposition of g — handler, SA_SIGINFO, flags, mask — is exactly what it was in s0. -/
 theorem C04_disposition_restored (pre mid : List Op) (s0 s1 : State) (g : Nat)
-    (h0 : exec init pre = some s0) (h1 : exec s0 mid = some s1)
+    (h0 : exec repaired init pre = some s0) (h1 : exec repaired s0 mid = some s1)
     (hno0 : ∀ e, ¬ Subscribed s0 e g) (hno1 : ∀ e, ¬ Subscribed s1 e g)
     (huser : ∀ d, Op.setDisp g d ∉ mid) : s1.os g = s0.os g := by
   have hi0 := C04_reachable_inv pre s0 h0
@@ -70,51 +78,64 @@ theorem C04_disposition_restored (pre mid : List Op) (s0 s1 : State) (g : Nat)
 /-- **the pre-existing handler is still invoked, exactly once per delivery**: whatever the subscription state, a
 delivery of g invokes the handler that is the process's own disposition of g (`baseDisp`: the one saved at the
 first subscription while tbox is installed, the current one otherwise) exactly once, and nothing else. -/
-theorem C04_chain_old_handler (ops : List Op) (s : State) (he : exec init ops = some s) (g : Nat) :
+theorem C04_chain_old_handler (ops : List Op) (s : State) (he : exec repaired init ops = some s) (g : Nat) :
     (raise s g).1.calls = (match (baseDisp s g).kind with
                            | .handler h => (h, g) :: s.calls
                            | _ => s.calls) := by
   have h := C04_reachable_inv ops s he
   unfold raise baseDisp
-  cases hc : s.ctxs g with
-  | none =>
-    have hk : (s.os g).kind ≠ .tbox := fun hk => by have := (h.core.osTbox g).1 hk; simp [hc] at this
+  by_cases hf : fdsOf s g = []
+  · have hk : (s.os g).kind ≠ .tbox := fun hk => (h.core.osTbox g).1 hk hf
+    simp only [hf, ↓reduceIte]
     cases hkind : (s.os g).kind with
     | tbox => exact absurd hkind hk
     | dfl => simp
     | ign => simp
     | handler h' => simp
-  | some c =>
-    have hk : (s.os g).kind = .tbox := (h.core.osTbox g).2 (by simp [hc])
-    have hctx : ctxOf s g = c := by simp [ctxOf, hc]
-    simp only [hk, hctx]
-    cases c.old.kind <;> rfl
+  · have hk : (s.os g).kind = .tbox := (h.core.osTbox g).2 hf
+    simp only [hk, hf, ↓reduceIte]
+    cases (ctxOf s g).old.kind <;> rfl
 
-/-- every callback ever made is legitimate: made by the pass of the event's own loop, on an event that was
-enabled and subscribed to that signal; a one-shot event is already disabled inside its callback and the
-callback is the first since its enablement; a persistent event is still enabled inside its callback. -/
-theorem C04_callbacks_legit (ops : List Op) (s : State) (he : exec init ops = some s) : ∀ c ∈ s.cbs, CbOk c :=
+/-- every callback ever made is legitimate: made by the pass of the event's own loop, on an object that existed and
+was enabled and subscribed to that signal at that moment; a one-shot event is already disabled inside its callback
+and the callback is the first since its enablement; a persistent event is still enabled inside its callback. -/
+theorem C04_callbacks_legit (ops : List Op) (s : State) (he : exec repaired init ops = some s) : ∀ c ∈ s.cbs, CbOk c :=
   (C04_reachable_inv ops s he).cbsOk
+
+/-- **no callback on a disabled or destroyed event**: also when an earlier callback of the same delivery (same
+snapshot of the subscriber set) disabled or destroyed it — for every callback script and every walking order. -/
+theorem C04_no_callback_on_disabled_or_destroyed (ops : List Op) (s : State) (he : exec repaired init ops = some s) :
+    ∀ c ∈ s.cbs, c.alive = true ∧ c.subscribed = true :=
+  fun c hc => ⟨((C04_reachable_inv ops s he).cbsOk c hc).alive, ((C04_reachable_inv ops s he).cbsOk c hc).subscribed⟩
 
 /-- **one-shot fires at most once** (per enablement): a callback of a one-shot event is the first one since the
 event was (re-)enabled, and it leaves the event disabled — hence unsubscribed from all its signals
 (`C04_ctx_matches`), so no later delivery reaches it until it is enabled again; and an enabled one-shot event
 has not fired since its enablement. -/
-theorem C04_oneshot_at_most_once (ops : List Op) (s : State) (he : exec init ops = some s) :
+theorem C04_oneshot_at_most_once (ops : List Op) (s : State) (he : exec repaired init ops = some s) :
     (∀ c ∈ s.cbs, c.oneshot = true → c.firedBefore = 0 ∧ c.enabledInCb = false) ∧
     (∀ e, (s.evs e).oneshot = true → (s.evs e).enabled = true → (s.evs e).fired = 0) := by
   have h := C04_reachable_inv ops s he
   exact ⟨fun c hc ho => ⟨((h.cbsOk c hc).oneshot ho).2, ((h.cbsOk c hc).oneshot ho).1⟩, h.once⟩
 
+/-- the read loop of a pass ends because the pipe is closed or empty, never because the model's fuel ran out -/
+theorem C04_pass_drains (ops : List Op) (s : State) (he : exec repaired init ops = some s) (l : Nat) (ord : List Nat) :
+    (pass repaired s l ord).hasPipe l = false ∨ (pass repaired s l ord).pipe l = [] :=
+  passLoop_drains l ord _ s (C04_reachable_inv ops s he) (Nat.lt_succ_self _)
+
 /-- **every subscriber exactly once, on its own loop**: in any reachable quiescent state (no delivery pending in any
-pipe) deliver g once and then run the loops `ls` one pass each, in any order, any loop any number of times.  The
-number of callbacks (e, g') grows by exactly one iff g' = g, e was enabled and subscribed to g at the delivery and
-e's loop is among those that ran — and by zero otherwise (no callback for another signal, for a disabled or
-unsubscribed event, no second callback).  (`C04_callbacks_legit`: that callback is made by e's own loop.) -/
-theorem C04_every_subscriber_once (ops : List Op) (s : State) (he : exec init ops = some s)
-    (hq : ∀ l, s.pipe l = []) (g : Nat) (ls : List Nat) (e g' : Nat) :
+pipe) deliver g once and then run the loops `ls` one pass each, in any order, any loop any number of times, each
+pass with any walking order.  If the callbacks of the subscribers of g do not themselves change subscriptions (the
+property's histories: subscription changes happen between deliveries), the number of callbacks (e, g') grows by
+exactly one iff g' = g, e was enabled and subscribed to g at the delivery and e's loop is among those that ran — and
+by zero otherwise (no callback for another signal, for a disabled or unsubscribed event, no second callback).
+(`C04_callbacks_legit`: that callback is made by e's own loop; with scripts that do change subscriptions
+`C04_no_callback_on_disabled_or_destroyed` says who is NOT called.) -/
+theorem C04_every_subscriber_once (ops : List Op) (s : State) (he : exec repaired init ops = some s)
+    (hq : ∀ l, s.pipe l = []) (g : Nat) (ls : List (Nat × List Nat)) (hord : ∀ p ∈ ls, p.2.Nodup)
+    (hns : ∀ e, Subscribed s e g → (s.evs e).script = []) (e g' : Nat) :
     cbCount (passes (raise s g).1 ls) e g' =
-      cbCount s e g' + (if g' = g ∧ Subscribed s e g ∧ (s.evs e).loop ∈ ls then 1 else 0) := by
+      cbCount s e g' + (if g' = g ∧ Subscribed s e g ∧ (s.evs e).loop ∈ ls.map (·.1) then 1 else 0) := by
   have h := C04_reachable_inv ops s he
   have h1 := raise_inv s g h
   -- the state after the delivery: same events, same log, pipes hold at most one g
@@ -133,61 +154,99 @@ theorem C04_every_subscriber_once (ops : List Op) (s : State) (he : exec init op
     intro l; rw [hpipe]; split
     · right; rfl
     · left; rfl
-  rw [cbCount_passes g ls _ h1 hq' e g']
+  have hns' : ∀ e, ((raise s g).1.evs e).enabled = true → g ∈ ((raise s g).1.evs e).sigs →
+      ((raise s g).1.evs e).script = [] := by
+    rw [hev]; exact fun e h1 h2 => hns e ⟨h1, h2⟩
+  rw [cbCount_passes g ls _ h1 hq' hord hns' e g']
   have hc0 : cbCount (raise s g).1 e g' = cbCount s e g' := by unfold cbCount; rw [hcb]
   rw [hc0, hev]
   congr 1
-  unfold Subscribed
-  by_cases hs : (s.evs e).enabled = true ∧ g ∈ (s.evs e).sigs
-  · -- a subscriber: tbox's handler is installed and e's loop is registered
+  have hiff : (g' = g ∧ ((s.evs e).enabled = true ∧ g ∈ (s.evs e).sigs) ∧ (raise s g).1.pipe (s.evs e).loop = [g] ∧
+      (s.evs e).loop ∈ ls.map (·.1)) ↔ (g' = g ∧ Subscribed s e g ∧ (s.evs e).loop ∈ ls.map (·.1)) := ?_
+  · by_cases hc : g' = g ∧ Subscribed s e g ∧ (s.evs e).loop ∈ ls.map (·.1)
+    · rw [if_pos hc, if_pos (hiff.2 hc)]
+    · rw [if_neg hc, if_neg (fun hh => hc (hiff.1 hh))]
+  constructor
+  · rintro ⟨h1, h2, _, h4⟩; exact ⟨h1, h2, h4⟩
+  · rintro ⟨h1, hs, h4⟩
+    -- a subscriber: tbox's handler is installed and e's loop is registered
     have hm : e ∈ subsOf s (s.evs e).loop g := (h.mem _ g e).2 ⟨hs.1, hs.2, rfl⟩
     have hne : subsOf s (s.evs e).loop g ≠ [] := ne_nil_iff_exists_mem.2 ⟨e, hm⟩
     have hfd : (s.evs e).loop ∈ fdsOf s g := (h.core.fdsIff g _).2 hne
-    have hk : (s.os g).kind = .tbox :=
-      (h.core.osTbox g).2 ((h.core.ctxSome g).2 (ne_nil_iff_exists_mem.2 ⟨_, hfd⟩))
-    rw [hpipe]
-    simp [hs, hk, hfd]
-  · simp [hs]
+    have hk : (s.os g).kind = .tbox := (h.core.osTbox g).2 (ne_nil_iff_exists_mem.2 ⟨_, hfd⟩)
+    refine ⟨h1, hs, ?_, h4⟩
+    rw [hpipe]; simp [hk, hfd]
 
-/-! ### why `initialize` on an enabled event is outside the histories (`valid`)
+/-! ### the code as found: three concrete histories (each replayed on /repo by the check) -/
 
-`SignalEventImpl::initialize` neither refuses an enabled event nor re-subscribes.  Replacing the signal set of an
-enabled event and then destroying it leaves tbox's handler installed for the old signal with a dangling subscriber
-(the destroyed object is still in the loop's subscriber set), and `disable()` "unsubscribes" the never-subscribed
-new signal, which overwrites the user's disposition of that signal with a zeroed `struct sigaction`. -/
+/-- (C04-01) `initialize` on an enabled event -/
 def reinitOps : List Op :=
-  [.setDisp 1 { kind := .handler 7 }, .newEv 0, .init 0 [0] false, .enable 0, .init 0 [1] false, .destroy 0]
+  [.setDisp 2 { kind := .handler 7 }, .newEv 0 [], .init 0 [1] false, .enable 0, .init 0 [2] false, .destroy 0]
 
+/-- as found: the destroyed event is still in loop 0's subscriber set for signal 1 and tbox's handler stays installed;
+the user's handler for signal 2 — never subscribed — is overwritten with a zeroed sigaction.  Repaired: nothing
+is left and nothing is touched. -/
 theorem C04_reinit_while_enabled_counterexample :
-    exec init reinitOps = none ∧
-    ((reinitOps.foldl step init).evs 0).alive = false ∧
-    ((reinitOps.foldl step init).os 0).kind = .tbox ∧
-    subsOf (reinitOps.foldl step init) 0 0 = [0] ∧
-    (reinitOps.foldl step init).os 1 = zeroDisp := by
-  refine ⟨?_, ?_, ?_, ?_, ?_⟩ <;> decide
+    (((reinitOps.foldl (step asFound) init).evs 0).alive = false ∧
+     ((reinitOps.foldl (step asFound) init).os 1).kind = .tbox ∧
+     subsOf (reinitOps.foldl (step asFound) init) 0 1 = [0] ∧
+     (reinitOps.foldl (step asFound) init).os 2 = zeroDisp) ∧
+    (((reinitOps.foldl (step repaired) init).os 1) = zeroDisp ∧
+     subsOf (reinitOps.foldl (step repaired) init) 0 1 = [] ∧
+     (reinitOps.foldl (step repaired) init).os 2 = { kind := .handler 7 }) := by
+  refine ⟨⟨?_, ?_, ?_, ?_⟩, ?_, ?_, ?_⟩ <;> decide
+
+/-- (C04-02) `enable()` with SIGSTOP (id 3) in the set -/
+def enableFailOps : List Op := [.newEv 0 [], .init 0 [1, 3] false, .enable 0]
+
+/-- as found: `enable()` returns false, the event reports disabled, yet it stays subscribed to signal 1 with tbox's
+handler installed — `disable()` and the destructor will never remove it.  Repaired: rolled back. -/
+theorem C04_enable_fails_midway_counterexample :
+    (((enableFailOps.foldl (step asFound) init).evs 0).enabled = false ∧
+     subsOf (enableFailOps.foldl (step asFound) init) 0 1 = [0] ∧
+     ((enableFailOps.foldl (step asFound) init).os 1).kind = .tbox) ∧
+    (((enableFailOps.foldl (step repaired) init).evs 0).enabled = false ∧
+     subsOf (enableFailOps.foldl (step repaired) init) 0 1 = [] ∧
+     (enableFailOps.foldl (step repaired) init).os 1 = zeroDisp) := by
+  refine ⟨⟨?_, ?_, ?_⟩, ?_, ?_, ?_⟩ <;> decide
+
+/-- (C04-03) the callback of event 0 destroys event 1; both are in the snapshot of one delivery -/
+def staleOps : List Op :=
+  [.setDisp 1 { kind := .ign }, .newEv 0 [.destroy 1], .newEv 0 [], .init 0 [1] false, .init 1 [1] false,
+   .enable 0, .enable 1, .raise 1, .pass 0 [0, 1]]
+
+/-- as found: the destroyed event 1 is called (a use-after-free).  Repaired: one callback, on event 0. -/
+theorem C04_callback_on_destroyed_counterexample :
+    ((staleOps.foldl (step asFound) init).cbs.map (fun c => (c.ev, c.alive)) = [(1, false), (0, true)]) ∧
+    ((staleOps.foldl (step repaired) init).cbs.map (fun c => (c.ev, c.alive)) = [(0, true)]) ∧
+    (exec repaired init staleOps).isSome = true := by
+  refine ⟨?_, ?_, ?_⟩ <;> decide
 
 /-! ### non-vacuity: concrete histories satisfying the hypotheses -/
 
-/-- a user handler on signal 0; two loops; a persistent event on loop 0 and a one-shot on loop 1, both enabled -/
+/-- a user handler on signal 1; two loops; a persistent event on loop 0 and a one-shot on loop 1, both enabled;
+a third, scripted event (its callback disables event 0) subscribed to another signal -/
 def demo : List Op :=
-  [.setDisp 0 { kind := .handler 1, siginfo := true, flags := 1, mask := 5 }, .newEv 0, .newEv 1,
-   .init 0 [0] false, .init 1 [0, 1] true, .enable 0, .enable 1]
+  [.setDisp 1 { kind := .handler 1, siginfo := true, flags := 1, mask := 5 }, .newEv 0 [], .newEv 1 [],
+   .newEv 0 [.disable 0], .init 0 [1] false, .init 1 [1, 2] true, .init 2 [4] false, .enable 0, .enable 1, .enable 2]
 
-def demoState : State := demo.foldl step init
+def demoState : State := demo.foldl (step repaired) init
 
-example : (exec init demo).isSome = true := by decide
-/-- quiescent, tbox installed for 0 and 1, ctx of 0 lists both loops -/
-example : (demoState.os 0).kind = .tbox ∧ fdsOf demoState 0 = [1, 0] ∧ (∀ l < 3, demoState.pipe l = []) := by decide
-/-- delivery of 0 then passes of loops 1 and 0: the old handler ran once, each event got one callback, the
+example : (exec repaired init demo).isSome = true := by decide
+/-- quiescent, tbox installed for 1, ctx of 1 lists both loops, the subscribers of 1 have no scripts -/
+example : (demoState.os 1).kind = .tbox ∧ fdsOf demoState 1 = [1, 0] ∧ (∀ l < 3, demoState.pipe l = []) ∧
+    (∀ e < 3, Subscribed demoState e 1 → (demoState.evs e).script = []) := by decide
+/-- delivery of 1 then passes of loops 1 and 0: the old handler ran once, each event got one callback, the
 one-shot is disabled -/
-example : (passes (raise demoState 0).1 [1, 0]).calls = [(1, 0)] ∧
-    cbCount (passes (raise demoState 0).1 [1, 0]) 0 0 = 1 ∧ cbCount (passes (raise demoState 0).1 [1, 0]) 1 0 = 1 ∧
-    cbCount (passes (raise demoState 0).1 [1, 0]) 1 1 = 0 ∧
-    ((passes (raise demoState 0).1 [1, 0]).evs 1).enabled = false := by decide
-/-- after both are disabled the disposition of 0 is the user's again, field by field (hypotheses of
-`C04_disposition_restored` with pre = [setDisp …], mid = the rest ++ [disable 0, destroy 1]) -/
-example : ((demo ++ [Op.raise 0, Op.pass 0, Op.disable 0, Op.destroy 1]).foldl step init).os 0 =
+example : (passes (raise demoState 1).1 [(1, []), (0, [2, 0])]).calls = [(1, 1)] ∧
+    cbCount (passes (raise demoState 1).1 [(1, []), (0, [2, 0])]) 0 1 = 1 ∧
+    cbCount (passes (raise demoState 1).1 [(1, []), (0, [2, 0])]) 1 1 = 1 ∧
+    cbCount (passes (raise demoState 1).1 [(1, []), (0, [2, 0])]) 1 2 = 0 ∧
+    ((passes (raise demoState 1).1 [(1, []), (0, [2, 0])]).evs 1).enabled = false := by decide
+/-- after all are disabled the disposition of 1 is the user's again, field by field (hypotheses of
+`C04_disposition_restored` with pre = [setDisp …], mid = the rest) -/
+example : ((demo ++ [Op.raise 1, Op.pass 0 [], Op.init 0 [2] false, Op.destroy 1]).foldl (step repaired) init).os 1 =
     { kind := .handler 1, siginfo := true, flags := 1, mask := 5 } := by decide
-example : (exec init (demo ++ [Op.raise 0, Op.pass 0, Op.disable 0, Op.destroy 1])).isSome = true := by decide
+example : (exec repaired init (demo ++ [Op.raise 1, Op.pass 0 [], Op.init 0 [2] false, Op.destroy 1])).isSome = true := by decide
 
 end Tbox.C04
